@@ -2,7 +2,7 @@
    Only theorem statements, each closed by [exact] of a lemma proved elsewhere. *)
 From LzVerif Require Import Base.Bytes Filter.Delta Filter.DeltaProofs.
 From LzVerif Require Import Filter.Bcj Filter.BcjStream Filter.BcjDefects Filter.BcjCodeProofs
-  Filter.BcjStreamProofs Filter.BcjAllProofs Filter.BcjDefectsProofs.
+  Filter.BcjStreamProofs Filter.BcjIa64Proofs Filter.BcjAllProofs Filter.BcjDefectsProofs.
 
 (* Delta: for EVERY distance value (the whole usize range, in or out of 1..256) and every byte
    string, the encoder does not panic, keeps the length, and the decoder returns the input. *)
@@ -87,10 +87,19 @@ Theorem C11_bcj_inverse_sparc : forall start buf, start mod 4 = 0 -> bytes_ok bu
 Proof. exact bcj_inverse_sparc. Qed.
 Print Assumptions C11_bcj_inverse_sparc.
 
+(* IA-64: bundles of 16 bytes, three 41-bit slots; start offset a multiple of 16 *)
+Theorem C11_bcj_inverse_ia64 : forall start buf, start mod 16 = 0 -> bytes_ok buf = true ->
+  exists st' out rest,
+    bcj_code IA64 true (bcj_init IA64 start) buf = Ok (st', out, rest) /\
+    bcj_code IA64 false (bcj_init IA64 start) (out ++ rest) = Ok (st', firstn (length out) buf, rest) /\
+    firstn (length out) buf ++ rest = buf /\ bytes_ok out = true.
+Proof. exact bcj_inverse_ia64. Qed.
+Print Assumptions C11_bcj_inverse_ia64.
+
 (* ---- the round trip through the I/O adapters, for every architecture whose `code` inverse is
    proved: one BCJWriter::write of the data, then BCJReader over ANY chunking of the filtered
    stream and ANY history of destination sizes (zeros included) that asks for enough bytes. ---- *)
-Theorem C11_bcj_roundtrip_word : forall a, In a [ARM; ARMT; ARM64; PPC; SPARC] ->
+Theorem C11_bcj_roundtrip_word : forall a, In a [ARM; ARMT; ARM64; PPC; SPARC; IA64] ->
   forall start data, start mod bcj_align a = 0 -> bytes_ok data = true ->
   exists enc,
     bcj_enc_parts a start [data] = Ok enc /\ length enc = length data /\
